@@ -2,9 +2,12 @@
 // C12 (SPTree), C13 (greedy_fvs), C14 (candidate collections), C16 (ForestIndex) - flavour I.
 //   components --comp sptree|fvs|collections|forest --n N --alpha A [--edge-orders] ...
 #include <memory>
+#include <fstream>
+#include <sstream>
 #include "common/runner.hpp"
 #include "common/graphs.hpp"
 #include "common/bgl.hpp"
+#include <boost/graph/filtered_graph.hpp>      // before the library: its qualified boost:: calls only see what is declared by then
 #include <parmcb/config.hpp>
 #include <parmcb/sptrees.hpp>
 #include <parmcb/detail/fvs.hpp>
@@ -25,6 +28,8 @@ typedef boost::property_map<Graph, boost::edge_weight_t>::type WeightMap;
 typedef parmcb::SPTree<Graph, WeightMap> Tree;
 
 static std::string comp;
+static int g_filtered = 0;                 // --filtered 1: greedy_fvs is also run on vertex-filtered VIEWS of the graph (hidden-vertex subsets)
+static long long g_hidden_only = -1;       // replay: this subset of hidden vertices only
 
 static std::string cs_of(const vg::EdgeList &el, const std::vector<double> &w, const std::string &extra = "") {
     return vg::case_string(el, w, "component=" + comp + (extra.empty() ? "" : ";" + extra));
@@ -130,6 +135,56 @@ static void check_fvs(vr::Runner &R, const vg::EdgeList &el, const std::vector<d
     if (vg::cycle_space_dim(el) == 0 && !out.empty()) R.violation({site, "fvs-forest-nonempty", c, "input is a forest but " + std::to_string(out.size()) + " vertices were emitted"});
 }
 
+// greedy_fvs takes any vertex-list + incidence graph with a vertex index: a vertex-filtered view of an adjacency_list is
+// one whose vertex indices are NOT 0..k-1 in enumeration order. The view hides a subset H of the vertices (and their
+// edges); the oracle is the same as above, stated on the visible subgraph. H ranges over every non-empty subset for
+// n <= 6, otherwise over a fixed menu (each single vertex, the first 1..3 vertices, every second vertex, all but the last 3).
+struct HidePred {
+    const std::vector<char> *hidden;
+    HidePred() : hidden(nullptr) {}
+    explicit HidePred(const std::vector<char> *h) : hidden(h) {}
+    template<class V> bool operator()(const V &v) const { return !(*hidden)[v]; }
+};
+static void check_fvs_filtered(vr::Runner &R, const vg::EdgeList &el, const std::vector<double> &w, B &b) {
+    const char *site = "greedy_fvs";
+    int n = el.n; if (n < 1 || n > 62) return;
+    std::vector<uint64_t> subsets;
+    if (g_hidden_only >= 0) subsets.push_back((uint64_t) g_hidden_only);
+    else if (n <= 6) for (uint64_t h = 1; h < (1ull << n); ++h) subsets.push_back(h);
+    else {
+        for (int v = 0; v < n; ++v) subsets.push_back(1ull << v);
+        for (int k = 2; k <= 3; ++k) subsets.push_back((1ull << k) - 1);
+        uint64_t alt = 0; for (int v = 0; v < n; v += 2) alt |= 1ull << v; subsets.push_back(alt); subsets.push_back(alt << 1 & ((1ull << n) - 1));
+        subsets.push_back(((1ull << n) - 1) >> 3);
+    }
+    typedef boost::filtered_graph<Graph, boost::keep_all, HidePred> FG;
+    for (uint64_t h : subsets) {
+        std::vector<char> hidden(n, 0); for (int v = 0; v < n; ++v) hidden[v] = (char) (h >> v & 1);
+        FG fg(b.g, boost::keep_all(), HidePred(&hidden));
+        std::vector<unsigned long> out;
+        parmcb::greedy_fvs(fg, std::back_inserter(out));
+        R.count(C_EVAL);
+        char hb[32]; snprintf(hb, sizeof hb, "hidden=%llu", (unsigned long long) h);
+        auto C = [&] { return cs_of(el, w, hb); };
+        std::vector<char> in(n, 0); bool bad = false;
+        for (auto v : out) {
+            if (v >= (unsigned long) n) { R.violation({site, "fvs-not-a-vertex", C(), "view: emitted " + std::to_string(v) + " which is not a vertex"}); bad = true; break; }
+            if (hidden[v]) { R.violation({site, "fvs-not-a-vertex", C(), "view: emitted " + std::to_string(v) + " which is hidden by the view"}); bad = true; break; }
+            if (in[v]++) { R.violation({site, "fvs-duplicate", C(), "view: vertex " + std::to_string(v) + " emitted twice"}); bad = true; break; }
+        }
+        if (bad) continue;
+        vg::UF uf(n), uf_all(n); bool forest = true;
+        for (int i = 0; i < el.m(); ++i) {
+            int a = el.e[i].first, d = el.e[i].second;
+            if (hidden[a] || hidden[d]) continue;
+            if (!uf_all.unite(a, d)) forest = false;
+            if (in[a] || in[d]) continue;
+            if (!uf.unite(a, d)) { R.violation({site, "fvs-cycle-remains", C(), "view: visible graph minus the emitted set still has a cycle (through edge " + std::to_string(a) + "-" + std::to_string(d) + ")"}); bad = true; break; }
+        }
+        if (!bad && forest && !out.empty()) R.violation({site, "fvs-forest-nonempty", C(), "view: the visible graph is a forest but " + std::to_string(out.size()) + " vertices were emitted"});
+    }
+}
+
 // ---------------- C14 ----------------
 template<class Builder>
 static bool collect(vr::Runner &R, const char *site, const vg::EdgeList &el, const std::vector<double> &w, B &b,
@@ -174,6 +229,51 @@ static void greedy_check(vr::Runner &R, const char *site, const vg::EdgeList &el
     for (uint32_t i : ord) { if ((int) Bs.rank() == dim) break; if (Bs.add(masks[i])) tot += weights[i]; }
     if ((int) Bs.rank() != dim) { R.violation({site, "collection-rank", cs_of(el, w), "collection spans dimension " + std::to_string(Bs.rank()) + " of " + std::to_string(dim)}); return; }
     if (tot != ref.total) R.violation({site, "collection-not-sufficient", cs_of(el, w), "greedy over the collection gives " + vg::fmt_w(tot) + ", optimum " + vg::fmt_w(ref.total)});
+}
+
+// Size threshold of the tree representation: a root with more than 65535 tree children. Family hub:D:c = a star with D
+// leaves (vertex 0 is the hub) plus c chords {i, i+65536}, unit weights. Every chord closes a triangle with two spokes, the
+// c triangles are independent and no cycle has fewer than 3 edges, so the minimum cycle basis weighs exactly 3c - an oracle
+// that needs no reference computation. Only the FVS builder is run (one tree, rooted at the hub; Horton / ISO would build
+// D trees). Candidates are validated as edge SETS (the 64-bit masks of the small-graph oracle do not apply).
+static void check_fvs_collection_hub(vr::Runner &R, const vg::EdgeList &el, const std::vector<double> &w, B &b) {
+    const char *site = "FVSCyclesBuilder";
+    int dim = vg::cycle_space_dim(el);
+    for (double x : w) if (x != 1) { fprintf(stderr, "collections-hub needs unit weights\n"); exit(2); }
+    WeightMap wm = boost::get(boost::edge_weight, b.g);
+    std::vector<Tree> trees;
+    std::vector<parmcb::CandidateCycle<Graph, WeightMap>> cycles;
+    parmcb::detail::FVSCyclesBuilder<Graph, WeightMap> builder;
+    builder(b.g, wm, trees, cycles);
+    R.count(C_EVAL);
+    auto C = [&] { return cs_of(el, w); };
+    std::vector<std::pair<double, std::vector<int>>> cand;
+    for (auto &cc : cycles) {
+        if (cc.tree() >= trees.size()) { R.violation({site, "cand-tree-index", C(), "candidate refers to tree " + std::to_string(cc.tree()) + " of " + std::to_string(trees.size())}); return; }
+        Tree &t = trees[cc.tree()];
+        int root = (int) t.source();
+        auto it = b.by_prop.find(cc.edge().get_property());
+        if (it == b.by_prop.end()) { R.violation({site, "cand-edge", C(), "candidate edge is not an edge of the graph"}); return; }
+        int ei = it->second, u = el.e[ei].first, v = el.e[ei].second;
+        std::vector<int> pu, pv, vu, vv_; std::string err;
+        if (!tree_path(b, t, root, u, pu, vu, err) || !tree_path(b, t, root, v, pv, vv_, err)) { R.violation({site, "cand-path", C(), err}); return; }
+        std::set<int> su(vu.begin(), vu.end());
+        for (int x : vv_) if (x != root && su.count(x)) { R.violation({site, "cand-not-simple", C(), "root paths to the two endpoints share vertex " + std::to_string(x)}); return; }
+        std::vector<int> es = pu; es.insert(es.end(), pv.begin(), pv.end()); es.push_back(ei); std::sort(es.begin(), es.end());
+        if (std::adjacent_find(es.begin(), es.end()) != es.end()) { R.violation({site, "cand-not-simple", C(), "candidate repeats an edge"}); return; }
+        if ((double) cc.weight() != (double) es.size()) { R.violation({site, "cand-weight", C(), "recorded weight " + vg::fmt_w(cc.weight()) + ", true weight " + std::to_string(es.size())}); return; }
+        cand.push_back({(double) es.size(), es});
+    }
+    std::stable_sort(cand.begin(), cand.end(), [](const std::pair<double, std::vector<int>> &a, const std::pair<double, std::vector<int>> &b2) { return a.first < b2.first; });
+    std::map<int, std::vector<int>> pivots; double tot = 0;       // sparse GF(2) elimination: pivot = smallest edge index
+    for (auto &cd : cand) {
+        if ((int) pivots.size() == dim) break;
+        std::vector<int> v = cd.second;
+        while (!v.empty()) { auto pit = pivots.find(v[0]); if (pit == pivots.end()) break; std::vector<int> x; std::set_symmetric_difference(v.begin(), v.end(), pit->second.begin(), pit->second.end(), std::back_inserter(x)); v.swap(x); }
+        if (!v.empty()) { pivots[v[0]] = v; tot += cd.first; }
+    }
+    if ((int) pivots.size() != dim) { R.violation({site, "collection-rank", C(), "collection of " + std::to_string(cand.size()) + " candidates spans dimension " + std::to_string(pivots.size()) + " of " + std::to_string(dim)}); return; }
+    if (tot != 3.0 * dim) R.violation({site, "collection-not-sufficient", C(), "greedy over the collection gives " + vg::fmt_w(tot) + ", optimum " + std::to_string(3 * dim)});
 }
 
 static void check_collections(vr::Runner &R, const vg::EdgeList &el, const std::vector<double> &w, B &b, const std::vector<uint64_t> &cyc, int dim) {
@@ -242,15 +342,25 @@ static void check_forest(vr::Runner &R, const vg::EdgeList &el, const std::vecto
     as = fi;
     if (!verify_forest(R, as, el, b, c, "assigned-over-another-graph's-index")) return;
     as = *&as;
-    verify_forest(R, as, el, b, c, "self-assigned");
+    if (!verify_forest(R, as, el, b, c, "self-assigned")) return;
+    // a copy is an independent value: it must stay right after the object it was copied from is gone (and after the
+    // memory of that object has been handed to somebody else - here to a fresh index of the other graph)
+    parmcb::ForestIndex<Graph> *src = new parmcb::ForestIndex<Graph>(b.g);
+    parmcb::ForestIndex<Graph> cp2(*src), as2(other.g);
+    as2 = *src;
+    delete src;
+    parmcb::ForestIndex<Graph> reuse1(other.g), reuse2(other.g);
+    if (!verify_forest(R, cp2, el, b, c, "copy-constructed,-source-destroyed")) return;
+    verify_forest(R, as2, el, b, c, "assigned,-source-destroyed");
 }
 
 static void run_case(vr::Runner &R, const vg::EdgeList &el, const std::vector<double> &w, B &b, const std::vector<uint64_t> &cyc, int dim) {
     b.set_weights(w);
     try {
         if (comp == "sptree") check_sptrees(R, el, w, b);
-        else if (comp == "fvs") check_fvs(R, el, w, b);
+        else if (comp == "fvs") { if (g_filtered) check_fvs_filtered(R, el, w, b); else check_fvs(R, el, w, b); }
         else if (comp == "collections") check_collections(R, el, w, b, cyc, dim);
+        else if (comp == "collections-hub") check_fvs_collection_hub(R, el, w, b);
         else if (comp == "forest") check_forest(R, el, w, b, "");
     } catch (std::exception &e) { R.violation({comp, "exception", cs_of(el, w), e.what()}); }
 }
@@ -267,8 +377,12 @@ int main(int argc, char **argv) {
     bool edge_orders = A.has("edge-orders");
 
     if (A.has("replay-case")) {
-        auto pc = vg::parse_case(A.get("replay-case"));
+        std::string rc = A.get("replay-case");
+        if (rc.rfind("@file:", 0) == 0) { std::ifstream in(rc.substr(6)); std::stringstream ss; ss << in.rdbuf(); rc = ss.str(); }     // cases too long for one argv entry
+        auto pc = vg::parse_case(rc);
         comp = pc.get("component", comp);
+        if (!pc.get("hidden").empty()) { g_filtered = 1; g_hidden_only = atoll(pc.get("hidden").c_str()); }
+        else if (pc.get("filtered") == "1") g_filtered = 1;       // a crash inside the unit: every view of the graph is replayed
         R.worker_id = 0;
         std::vector<int> order;
         if (!pc.get("order").empty()) for (auto &s : vr::split(pc.get("order"), '.')) order.push_back(atoi(s.c_str()));
@@ -300,6 +414,7 @@ int main(int argc, char **argv) {
     bool weighted = (comp == "sptree" || comp == "collections");
     int orient_mode = (int) A.geti("orient", 0);
     vg::plus_heavy_k2() = A.has("plus-heavy-k2");
+    g_filtered = (int) A.geti("filtered", 0);
     vg::edge_order_mode() = (int) A.geti("eorder", 0);
     auto unit_graph0 = [&](uint64_t u) { uint64_t uu = (u + seed) % total_units; return blob ? blob->build(uu) : !fams.empty() ? vg::relabel(vg::family(fams[uu / relabel_n]), (int) (uu % relabel_n)) : sparse_m >= 0 ? vg::sparse_graph(n, sparse_m, uu) : vg::graph_from_mask(n, uu); };
     auto unit_graph = [&](uint64_t u) { vg::EdgeList g = unit_graph0(u); vg::order_edges(g); vg::orient(g, orient_mode); if (vg::plus_heavy_k2()) { g.e.push_back({g.n, g.n + 1}); g.n += 2; } return g; };
@@ -309,7 +424,7 @@ int main(int argc, char **argv) {
         if (edge_orders) { vg::weighting(alpha, el.m(), 0, w); std::vector<int> p(el.m()); std::iota(p.begin(), p.end(), 0); for (uint64_t i = 0; i < sub; ++i) std::next_permutation(p.begin(), p.end());
             std::string o; for (size_t i = 0; i < p.size(); ++i) o += (i ? "." : "") + std::to_string(p[i]); return std::make_pair(comp, cs_of(el, w, "order=" + o)); }
         vg::weighting(alpha, el.m(), weighted ? sub : 0, w);
-        return std::make_pair(comp, cs_of(el, w));
+        return std::make_pair(comp, cs_of(el, w, g_filtered ? "filtered=1" : ""));
     };
     auto work = [&](uint64_t u, uint64_t start_sub) {
         vg::EdgeList el = unit_graph(u);
